@@ -66,6 +66,28 @@ def r_at_most(ck: Checker) -> None:
     bad = [st for st in it2.states(site) if "badweight" in st.marks]
     ck.add("H4 a non-positive or non-numeric element weight voids at-most-one", not bad, func, tests[0], f"at-most result still recorded after an element with non-positive/non-numeric weight: {bool(bad)}",
            "'#sum{1,X:p(X):d(X); -1,Y:q(Y):d(Y)} 1' allows two p atoms when a q atom compensates; skipping the negative element instead of giving up makes p 'at most one'")
+    # ... for EVERY element, also those that are skipped because their literal is negated or not an atom (their weight
+    # counts towards the bound all the same)
+    wl = enclosing_loop(func, tests[0])
+    ck.need(wl is not None, "weights are tested per element")
+    itq = ck.interp(func, Pins.of(vals={f"{rule}.head.ast_type": "ASTType.HeadAggregate"}), mark_stmts={id(tests[0]): "weighed"}, clear_marks_at={id(wl): "weighed"})
+    back_w = itq.loop_back.get(id(wl), [])
+    okq = bool(back_w) and all("weighed" in s_.marks for s_ in back_w)
+    ck.add("H4 the weight of EVERY head-aggregate element is tested, skipped elements included", okq, func, tests[0], f"every completed iteration over the elements has passed the weight test: {okq}",
+           "`#sum{1,L : shift(D,L) : pshift(D,L); -1,relaxed : not strict(D)} 1` allows two shifts on a relaxed day: a negative weight on an element that is skipped for other reasons still raises the bound")
+    # ... for EVERY kind of head aggregate that is accepted (#sum, #sum+, #count): at the registration of an element's
+    # predicate the weight is known to be a positive number
+    head_n = f"{rule}.head"
+    regs_ = [c for c in attr_calls(func, "add") if unparse(c.func.value) == "preds"]  # type: ignore[attr-defined]
+    for fun_ in ("Sum", "SumPlus", "Count"):
+        itw = ck.interp(func, Pins.of(vals={f"{head_n}.ast_type": "ASTType.HeadAggregate", f"{head_n}.function": f"AggregateFunction.{fun_}"}))
+        for reg_ in regs_:
+            if not itw.reachable(reg_):
+                continue
+            elem_ = unparse(enclosing_loop(func, reg_).target) if enclosing_loop(func, reg_) is not None else "elem"  # type: ignore[union-attr]
+            okw = itw.holds(reg_, f"{elem_}.terms[0].symbol.type == SymbolType.Number and {elem_}.terms[0].symbol.number > 0")
+            ck.add(f"H4 #{fun_.lower()} head: an element is only registered if its weight is a positive number", okw, func, reg_, f"`{fmt(reg_)}` dominated by the weight test for a {fun_} head: {okw}",
+                   "`#sum+{0,X : p(X) : d(X)} 1` bounds nothing: elements of weight 0 do not count, so p is not at-most-one")
     bad2 = [st for st in it2.states(app_least[0]) if "badweight" in st.marks]
     ck.add("H4 ... and at-least-one", not bad2, func, tests[0], f"at-least result recorded after a bad weight: {bool(bad2)}", "")
     # elements that are skipped must make 'alone' false
